@@ -250,6 +250,11 @@ class Check:
         for d in glob.glob(os.path.join(OUT, self.prop.lower() + "*")):
             if os.path.isdir(d):
                 shutil.rmtree(d, ignore_errors=True)
+            elif os.path.isfile(d) and os.path.getsize(d) > (4 << 20):
+                try:
+                    os.remove(d)        # large ops / answer streams of a run that agreed
+                except OSError:
+                    pass
         print("OK property=%s tier=%s wall=%.1fs" % (self.prop, self.tier, wall))
         return 0
 
